@@ -22,7 +22,7 @@ print('SKIP' if m.get('expected_silent') else ' '.join(p for p,r in m.get('check
     echo "$id $p exit=$rc $rule violating_runs=${vr:-?}"
     [ $rc -ne 1 ] && SILENT="$SILENT $id/$p(exit=$rc)"
   done
-  git -C /repo checkout -- .
+  git -C /repo checkout -- . && git -C /repo clean -fdq
 done
 rm -rf evidence && mv .work/evidence.regress evidence
 echo "silent:${SILENT:- none}"
